@@ -1,7 +1,7 @@
 (* Instantiation of the chunk-independence theorem (TokIR/Chunk.v) on the REGENERATED tokenizer tables:
    every arm body of every state has one of the shapes the suspend/resume argument needs. *)
 From Coq Require Import List NArith Bool.
-From HV Require Import TokIR.IR TokIR.Interp TokIR.Checks TokIR.Chunk Gen.GenHtmlTok Gen.GenXmlTok.
+From HV Require Import TokIR.IR TokIR.Interp TokIR.Checks TokIR.Chunk TokIR.ChunkInv Gen.GenHtmlTok Gen.GenXmlTok.
 Import ListNotations.
 
 Lemma html_shape_all : forall s, shape html_flavour (html_step s) = true.
@@ -47,4 +47,47 @@ Proof.
   intros simd ent c1 sk inj cs1 cs2 m m1 m2.
   exact (chunking_independent xml_flavour true xml_table simd ent c1 sk eq_refl xml_shape_all xml_no_eof_all
                               inj cs1 cs2 m m1 m2).
+Qed.
+
+(* ---------------------------------------------------------------- xml: the side condition is an invariant
+   TokIR/ChunkInv.v: if every step body starts with a consuming read or with eat, and no arm reconsumes in a state
+   whose body starts with eat, then J (the reconsume flag is set only in states that do not start with eat) is kept
+   by every step, by appending input and by injecting script text, and J implies the side condition [step_ok] that
+   the run relation of Chunk.v carries.  Both conditions are decided here on the REGENERATED xml table. *)
+Lemma xml_rfirst_all : forall s, rfirst (xml_step s) = true.
+Proof. intros s. destruct s; try reflexivity; destruct k; reflexivity. Qed.
+Lemma xml_rt_ok_all : forall s, rt_ok xml_table (xml_step s) = true.
+Proof. intros s. destruct s; try reflexivity; destruct k; reflexivity. Qed.
+
+(* every machine the tokenizer starts from satisfies J (the flag is clear) *)
+Lemma xml_J_init : forall s0 last bom q o k, J xml_table (mkmach (init_cfg s0 last bom) q o k).
+Proof. intros. intros H. discriminate H. Qed.
+
+Theorem xml_step_keeps_J : forall ex simd ent c1 sk m m' r,
+  J xml_table m ->
+  step [] fq_next fq_peek (@app N) (fun q => q) fq_run1 xml_flavour ex xml_table simd ent c1 sk false m = (m', r) ->
+  J xml_table m'.
+Proof.
+  intros ex simd ent c1 sk m m' r.
+  exact (step_J xml_flavour ex xml_table simd ent c1 sk xml_rfirst_all xml_rt_ok_all m m' r).
+Qed.
+
+(* for xml, on every machine satisfying J - hence on every machine reachable from an initial one - the run relation
+   IS the fuelled executable loop, and the loop leads to a J-machine again *)
+Theorem xml_run_is_relation :
+  forall simd ent c1 sk fuel m m' r,
+  J xml_table m ->
+  run [] fq_next fq_peek (@app N) (fun q => q) fq_run1 xml_flavour true xml_table simd ent c1 sk false fuel m = (m', r) ->
+  (oruns xml_flavour true xml_table simd ent c1 sk m m' r /\ J xml_table m') \/ r = SPanic 98.
+Proof.
+  intros simd ent c1 sk fuel m m' r.
+  exact (run_is_oruns_J xml_flavour true xml_table simd ent c1 sk xml_rfirst_all xml_rt_ok_all fuel m m' r).
+Qed.
+
+Theorem xml_feed_chunks_keeps_J :
+  forall simd ent c1 sk inj cs m m',
+  feed_chunks xml_flavour true xml_table simd ent c1 sk inj m cs m' -> J xml_table m -> J xml_table m'.
+Proof.
+  intros simd ent c1 sk inj cs m m'.
+  exact (feed_chunks_J xml_flavour true xml_table simd ent c1 sk xml_rfirst_all xml_rt_ok_all inj cs m m').
 Qed.
